@@ -31,7 +31,7 @@ RULE = (
     "one evaluation = one batch (program, dataset, options): all-samples run, every solo run, permuted / subset runs, pools run and physically merged run in one interpreter; "
     "distinct_nontrivial = distinct (program, dataset seed, run kind, sample set / order, interference pattern) runs whose sample columns were compared with the solo columns"
 )
-FAULT_KEYS = ["read_group_field_id", "single_pool_name_runs", "inbreeding_file", "fit_interference", "prior_work", "permuted_runs", "subset_runs", "solo_runs", "pool_runs", "merged_runs", "multi_core_runs", "sample_in_two_pools"]
+FAULT_KEYS = ["temperatures_file", "read_group_field_id", "single_pool_name_runs", "inbreeding_file", "fit_interference", "prior_work", "permuted_runs", "subset_runs", "solo_runs", "pool_runs", "merged_runs", "multi_core_runs", "sample_in_two_pools"]
 PROBE_KEYS = ["call_pool_start_state_tie_skipped", "exact_tie_skipped", "gl_values_compared", "pool_file_interleaved", "columns_compared", "records_compared_pool_vs_merged", "unknown_alleles_named_by_others", "alt_renumbered", "refmasked_solo_only",
               "programs_assemble", "programs_call", "programs_call_exact", "sample_in_two_pools", "fits_observed"]
 OPTIONAL_PROBES = {"quick": ("alt_renumbered", "refmasked_solo_only", "exact_tie_skipped", "call_pool_start_state_tie_skipped"), "thorough": ()}
@@ -78,7 +78,7 @@ def _gen_config(rng, tier, index=0):
         "pools": rng.random() < 0.7,
         "cores": rng.choice([1, 1, 1, 2, 3]),
         "threshold": rng.choice([None, None, 0.05, 0.5]),
-        "temperatures": rng.choice([None, None, [0.3, 1.0]]),
+        "temperatures": rng.choice([None, None, [0.3, 1.0], "file", "file"]),
         "inbreeding": rng.choice([None, None, "const", "file", "file"]),
         "opt_picks": [rng.random() for _ in range(2)],
         "rg_field_id": rng.random() < 0.12,
@@ -118,7 +118,16 @@ class Batch(scn_c08.Batch):
                 f.write("%s\t%s\n" % (n, v))
         return p
 
-    def argv10(self, program, ds, bam_list, ploidy_file, hapvcf=None, pool_file=None, cores=1, inbreeding=None):
+    def temperatures_file(self, names, ladders):
+        """Per-sample ladders; the file may only name samples of the run (the parser asserts that)."""
+        p = self.path(".temps")
+        with open(p, "w") as f:
+            for n in names:
+                if ladders.get(n):
+                    f.write("%s\t%s\n" % (n, "\t".join(str(t) for t in ladders[n])))
+        return p
+
+    def argv10(self, program, ds, bam_list, ploidy_file, hapvcf=None, pool_file=None, cores=1, inbreeding=None, temperatures_file=None):
         cfg = self.cfg
         a = ["mchap", program]
         if inbreeding is not None:
@@ -140,6 +149,11 @@ class Batch(scn_c08.Batch):
         if rep:
             a += ["--report"] + rep
         extra = self.mcmc_args(program)
+        if "--mcmc-temperatures" in extra and self.cfg.get("temperatures") == "file":
+            i = extra.index("--mcmc-temperatures")
+            del extra[i:i + 2]
+        if temperatures_file is not None and program == "assemble":
+            extra += ["--mcmc-temperatures", temperatures_file]
         if inbreeding is not None:
             # --inbreeding is given per batch above; drop the option swarm's constant one
             while "--inbreeding" in extra:
@@ -319,10 +333,22 @@ def run_batch(ctx, b):
             inb_all = b.inbreeding_file(samples, inb_values)
             ctx.counters.inc("inbreeding_file")
 
+        ladder_choices = [None, [0.5], [0.2, 0.6], [0.1]]
+        ladders = {s: ladder_choices[ctx.tape.int(0, 3)] for s in samples}
+        if cfg.get("temperatures") == "file":
+            ctx.counters.inc("temperatures_file")
+
         def run(sample_order, bams=None, pf=None, pool_file=None, cores=1, names=None, inb="default"):
             lst = b.bam_list(ds, sample_order, bams)
+            tf = None
+            if cfg.get("temperatures") == "file" and program == "assemble":
+                cols = names or sample_order
+                # units that are not plain samples (pools, whether given by a pool file or by merged BAMs):
+                # the alphabetically first unit is heated, so that both forms of the same pools agree
+                lad = ladders if all(c in ladders for c in cols) else {sorted(cols)[0]: [0.3]}
+                tf = b.temperatures_file(cols, lad)
             argv = b.argv10(program, ds, lst, pf or pf_all, hapvcf=hv, pool_file=pool_file, cores=cores,
-                            inbreeding=inb_all if inb == "default" else inb)
+                            inbreeding=inb_all if inb == "default" else inb, temperatures_file=tf)
             r = b.run(program, argv, day, seed_rng=True)
             if r["error"] is not None:
                 return None, r
